@@ -291,6 +291,9 @@ impl Encoder for GossipsubCodec {
     }
 }
 
+/// Upper bound for the size of the unsigned-varint length prefix of a frame.
+const MAX_LENGTH_PREFIX_BYTES: usize = 10;
+
 /// Validate RPC limits by parsing the wire format without allocating.
 fn validate_rpc_limits(
     mut buf: &[u8],
@@ -298,17 +301,29 @@ fn validate_rpc_limits(
     max_publish_messages: usize,
     max_control_message_size: usize,
 ) -> io::Result<bool> {
-    let message_length = buf.len();
-    if message_length > max_message_size {
-        return Err(io::Error::new(
+    let too_large = |message_length: usize| {
+        io::Error::new(
             io::ErrorKind::InvalidData,
             format!("message with {message_length}b exceeds maximum of {max_message_size}b",),
-        ));
-    }
+        )
+    };
 
     // Consume length prefix and get message bytes from length-prefixed buffer for validation
+    let buffered = buf.len();
     if !consume_message_prefix(&mut buf)? {
+        // The frame is still incomplete, so every buffered byte belongs to it: give up as soon as
+        // it can no longer fit the limit instead of buffering an oversized frame to its end.
+        if buffered > max_message_size.saturating_add(MAX_LENGTH_PREFIX_BYTES) {
+            return Err(too_large(buffered));
+        }
         return Ok(false);
+    }
+
+    // The limit applies to the encoding of this RPC alone, not to its length prefix nor to
+    // following frames that were read into the same buffer.
+    let message_length = buf.len();
+    if message_length > max_message_size {
+        return Err(too_large(message_length));
     }
 
     let mut publish_count = 0;
